@@ -8,7 +8,7 @@ import dataclasses
 import json
 import random
 import traceback
-from typing import Any, List, Optional
+from typing import Any, Dict, List, Optional
 
 from ..core import Ctx, stable_hash
 from ..par import pmap
@@ -58,7 +58,17 @@ class Flat:
     ys: List[int]
 
 
+@dataclasses.dataclass
+class Flat2:
+    a: List[int]
+    b: Flat
+    c: Optional[Dict[str, int]] = None
+
+
 SCENARIOS = {
+    # two different models that share sub-loaders (List[int], int, the Flat model itself)
+    "flat_shared_parts": {"t1": (Flat, {"x": 1, "ys": [1, 2]}), "t2": (Flat2, {"a": [3], "b": {"x": 4, "ys": [5]}, "c": {"k": 6}})},
+    "flat_shared_parts_dump": {"t1": (Flat, Flat(1, [1, 2])), "t2": (Flat2, Flat2([3], Flat(4, [5]), {"k": 6}))},
     "self_recursive_same": {"t1": (Node, {"v": 1, "next": {"v": 2, "next": {"v": 3, "next": None}}}),
                             "t2": (Node, {"v": 1, "next": {"v": 2, "next": {"v": 3, "next": None}}})},
     "mutual_recursive_cross": {"t1": (MA, {"v": 1, "b": {"w": 2, "a": {"v": 3, "b": {"w": 4, "a": None}}}}),
@@ -108,27 +118,42 @@ def install_patches():
     orig_init, orig_set = op.FuncWrapper.__init__, op.FuncWrapper.set_func
 
     def init(self, key):
-        orig_init(self, key)
         s = _PATCHED.get("sched")
         if s is not None:
-            s.log("stub_create")
+            s.local.atomic = getattr(s.local, "atomic", 0) + 1
+        try:
+            orig_init(self, key)
+            if s is not None:
+                s.log("stub_create")
+        finally:
+            if s is not None:
+                s.local.atomic -= 1
 
     def set_func(self, func):
         s = _PATCHED.get("sched")
         if s is not None:
             s.yield_point("pre_bind")        # the scheduler may switch before the state change ...
-        orig_set(self, func)
         if s is not None:
-            s.log("bind")                    # ... the event is logged after it (linearisation point)
+            s.local.atomic = getattr(s.local, "atomic", 0) + 1     # state change + event: one step for the line-level scheduler
+        try:
+            orig_set(self, func)
+            if s is not None:
+                s.log("bind")                # ... the event is logged after it (linearisation point)
+        finally:
+            if s is not None:
+                s.local.atomic -= 1
     op.FuncWrapper.__init__ = init
     op.FuncWrapper.set_func = set_func
     _PATCHED["installed"] = True
 
 
-def run_schedule(scenario: str, decisions: dict) -> dict:
+def run_schedule(scenario: str, decisions: dict, line_level: bool = False) -> dict:
     from adaptix import Retort
     install_patches()
-    sched = Sched({int(k): v for k, v in decisions.items()}, timeout=15.0)
+    sched = Sched({int(k): v for k, v in decisions.items()}, timeout=4.0 if line_level else 15.0)
+    if line_level:
+        from ..sched import make_line_tracer
+        sched.line_tracer = make_line_tracer(sched)
     _PATCHED["sched"] = sched
     retort = Retort()
     if not hasattr(retort, "_call_cache") or not hasattr(retort, "_loader_cache"):
@@ -163,6 +188,10 @@ def run_schedule(scenario: str, decisions: dict) -> dict:
     ref = Retort()
     expected = {t: (repr((ref.get_dumper(tp) if dump else ref.get_loader(tp))(datum)),) * 2 for t, (tp, datum) in spec.items()}
     failures = []
+    if deadlock and line_level:
+        # a thread parked at an arbitrary line may hold a real lock (compiler counter, import lock) the others wait for: inconclusive
+        return {"scenario": scenario, "decisions": decisions, "failures": [], "steps": sched.step, "trace": [], "evs": [], "inconclusive": True,
+                "line_level": True}
     if deadlock:
         failures.append({"what": "deadlock", "detail": deadlock})
     for t in spec:
@@ -184,14 +213,15 @@ def run_schedule(scenario: str, decisions: dict) -> dict:
         elif e["op"] == "call":
             evs.append({"t": e["t"], "op": "call", "creator": "-", "stub": False, "ok": bool(e["ok"])})
     return {"scenario": scenario, "decisions": decisions, "failures": failures, "steps": sched.step,
-            "trace": [(k, t, r) for k, t, r in sched.trace], "evs": evs}
+            "trace": [(k, t, r) for k, t, r in sched.trace], "evs": evs, "line_level": line_level}
 
 
 def _chunk(items) -> list:
     out = []
-    for scenario, decisions in items:
+    for item in items:
+        scenario, decisions = item[0], item[1]
         try:
-            out.append(run_schedule(scenario, decisions))
+            out.append(run_schedule(scenario, decisions, line_level=len(item) > 2 and item[2]))
         except MachineryError:
             raise
         except Exception:  # noqa: BLE001
@@ -267,9 +297,10 @@ def run(ctx: Ctx) -> None:
                 "_loader_cache / _dumper_cache / _call_cache, FuncWrapper.set_func, loader entry) for 6 scenarios (self-recursive model "
                 "requested by two threads, mutually recursive models from two entry points, recursion through a wrapper model, a flat "
                 "model, the dumper side, three threads); all schedules with <= 2 (quick) / <= 3 (thorough) preemptions up to a budget, "
-                "then random schedules; each followed by calls on nested data and compared with a single-threaded run; non-trivial = "
+                "then random schedules, then schedules with 1-3 preemptions at random source lines of the library (sys.settrace); each followed by calls on nested data and compared with a single-threaded run; non-trivial = "
                 "schedules with at least one preemption")
-    ctx.assumptions = ["preemption only at the instrumented yield points (line-level interleavings inside a dict operation are not explored)",
+    ctx.assumptions = ["exhaustive enumeration only at the instrumented yield points; line-level preemption is random (a run in which a parked thread holds "
+                       "a real lock the others need is counted as inconclusive)",
                        "CPython dict operations are atomic; the compiler's file-name counter lock is not held across a yield point"]
     # ---- the model -------------------------------------------------------------------------------
     for eq, n, expect in ((False, 2, True), (False, 3, True), (True, 2, False)):
@@ -300,6 +331,15 @@ def run(ctx: Ctx) -> None:
         threads = list(SCENARIOS[scenario])
         rnd = [(scenario, {k: rng.choice(threads) for k in range(-1, steps * 2) if rng.random() < 0.35}) for _ in range(60 if quick else 1500)]
         for chunk in pmap(_chunk, rnd, chunk=20):
+            all_runs += chunk
+        # line-level schedules: 1-3 preemptions at random source lines of the library (sys.settrace), between the shared-state operations
+        base_l = run_schedule(scenario, {}, line_level=True)
+        n_lines = max(base_l["steps"], 50)
+        rnd_l = []
+        for _ in range(40 if quick else 1200):
+            ks = sorted(rng.sample(range(n_lines), rng.randint(1, 3)))
+            rnd_l.append((scenario, {k: rng.choice(threads) for k in ks} | ({-1: rng.choice(threads)} if rng.random() < 0.5 else {}), True))
+        for chunk in pmap(_chunk, rnd_l, chunk=10):
             all_runs += chunk
     machinery = [r["machinery"] for r in all_runs if "machinery" in r]
     if machinery:
@@ -332,6 +372,8 @@ def run(ctx: Ctx) -> None:
             ctx.violation(sig, f"scenario {r['scenario']}, schedule {r['decisions']}: {f['detail']}",
                           {"scenario": r["scenario"], "decisions": r["decisions"], "failure": f, "events": r["evs"][:80]})
     ctx.extra["failing_runs"] = len(failing)
+    ctx.extra["line_level_runs"] = sum(1 for r in all_runs if r.get("line_level"))
+    ctx.extra["line_level_inconclusive"] = sum(1 for r in all_runs if r.get("inconclusive"))
     ctx.extra["runs"] = len(all_runs)
 
 
